@@ -7,6 +7,12 @@ CONTRACTS = [
     'bitcoinlib.encoding.varbyteint_to_int[form-fe]',
     'bitcoinlib.encoding.varbyteint_to_int[form-ff]',
     'bitcoinlib.encoding.varbyteint_to_int[single-byte]',
+    'bitcoinlib.encoding.read_varbyteint[form-fd]',
+    'bitcoinlib.encoding.read_varbyteint[form-fe]',
+    'bitcoinlib.encoding.read_varbyteint[form-ff]',
+    'bitcoinlib.encoding.read_varbyteint_return[form-fd]',
+    'bitcoinlib.encoding.read_varbyteint_return[form-fe]',
+    'bitcoinlib.encoding.read_varbyteint_return[form-ff]',
     'bitcoinlib.encoding.varstr',
     'bitcoinlib.encoding.read_varbyteint',
     'bitcoinlib.encoding.read_varbyteint_return',
